@@ -47,7 +47,7 @@ def _sep(draw, base):
 
 @st.composite
 def _case(draw):
-    d = draw(c17._desc(draw(st.sampled_from(["kida", "uclchem-upper", "leeds-grain", "umist-mod", "naunet"]))))
+    d = draw(c17._desc(draw(st.sampled_from(["kida", "uclchem-upper", "leeds-grain", "umist-mod", "naunet", "krome"]))))
     d.pop("kind")
     d["name"] = draw(st.sampled_from(["vtproj", "my_net", "nullnet"]))
     d["description"] = draw(st.sampled_from(["", "a test project", "annulled rates"]))
@@ -564,6 +564,9 @@ def check_export(d):
                 # the native reaction class does not register the symbols (zism, H2 formation rate, ...) the dust model reads
                 # from the reaction: the exported project has lost the source format's reaction class
                 key = "export/rerender-raises/grain-model-needs-symbols-of-the-source-format"
+            elif d["fmt"] == "krome" and "Unknown reaction type 999" in why:
+                # reactions.naunet has no column for a KROME rate expression: the exported file holds type 999 and alpha = 0
+                key = "export/rerender-raises/krome-rate-expression-not-in-native-file"
             elif d["surface"] != "#" and "unrecognizable" in why:
                 key = "export/rerender-raises/non-default-surface-prefix"
             else:
